@@ -185,4 +185,104 @@ theorem toVolX_adjoint (ny nz : Nat) (vol v ex : Nat → Nat → Nat → K) (i :
   congr 1
   ring
 
+theorem times_zero' (m : Nat) : times m (0 : K) = 0 := by
+  induction m with
+  | zero => rfl
+  | succ m ih => simp [times, ih]
+
+theorem times_mul_nat (a b : Nat) (x : K) : times (a * b) x = times a (times b x) := by
+  induction a with
+  | zero => simp [times]
+  | succ a ih =>
+    have : (a + 1) * b = a * b + b := by ring
+    rw [this]
+    have add : ∀ m n : Nat, times (m + n) x = times m x + times n x := by
+      intro m n
+      induction n with
+      | zero => simp [times]
+      | succ n ihn => rw [← Nat.add_assoc]; simp only [times, ihn]; ring
+    rw [add, ih]
+    simp [times]
+
+theorem times_add_val (m : Nat) (x y : K) : times m (x + y) = times m x + times m y := by
+  induction m with
+  | zero => simp [times]
+  | succ m ih => simp only [times, ih]; ring
+
+theorem times_sumTo (m n : Nat) (f : Nat → K) :
+    times m (sumTo n f) = sumTo n (fun i => times m (f i)) := by
+  induction n with
+  | zero => simp [sumTo, times_zero']
+  | succ n ih => simp only [sumTo, times_add_val, ih]
+
+/-- an interior node `0 < n < N` has exactly the two neighbours `n-1` and `n` -/
+theorem hits_interior (N n c : Nat) (h0 : 0 < n) (h1 : n < N) :
+    hits N n c = (if c = n - 1 then 1 else 0) + (if c = n then 1 else 0) := by
+  unfold hits
+  have : min (N - 1) n = n := by omega
+  rw [this]
+  congr 1 <;> (split <;> split <;> first | rfl | omega)
+
+theorem sumTo_ite_eq (N a : Nat) (g : Nat → K) (ha : a < N) :
+    sumTo N (fun c => if c = a then g c else 0) = g a := by
+  induction N with
+  | zero => omega
+  | succ N ih =>
+    simp only [sumTo]
+    by_cases h : a = N
+    · subst h
+      have : sumTo a (fun c => if c = a then g c else 0) = 0 := by
+        have : ∀ M, M ≤ a → sumTo M (fun c => if c = a then g c else (0:K)) = 0 := by
+          intro M hM
+          induction M with
+          | zero => rfl
+          | succ M ihM =>
+            simp only [sumTo]
+            rw [ihM (by omega)]
+            have : M ≠ a := by omega
+            simp [this]
+        exact this a (le_refl _)
+      rw [this]; simp
+    · rw [ih (by omega)]
+      have : N ≠ a := fun e => h e.symm
+      simp [this]
+
+/-- one-dimensional gather over an interior node: the two adjacent cells -/
+theorem sumTo_hits (N n : Nat) (g : Nat → K) (h0 : 0 < n) (h1 : n < N) :
+    sumTo N (fun c => times (hits N n c) (g c)) = g (n - 1) + g n := by
+  have e : ∀ c, times (hits N n c) (g c) =
+      (if c = n - 1 then g c else 0) + (if c = n then g c else 0) := by
+    intro c
+    rw [hits_interior N n c h0 h1]
+    by_cases a : c = n - 1
+    · have b : n - 1 ≠ n := by omega
+      subst a
+      simp [b, times]
+    · by_cases b : c = n
+      · subst b
+        have a' : ¬ c = c - 1 := a
+        simp [a', times]
+      · simp [a, b, times]
+  simp only [e, sumTo_add]
+  rw [sumTo_ite_eq N (n-1) g (by omega), sumTo_ite_eq N n g h1]
+
+/-- **link to the operator of C02**: for an interior x-edge the transpose of the edges → cells
+distribution is the four-cell average `¼ Σ V·v` over the cells sharing the edge — the pattern
+with which `σ` enters the system matrix (`M_edge(η)`, C02) -/
+theorem avgX_interior (ny nz : Nat) (vol v : Nat → Nat → Nat → K) (i jn kn : Nat)
+    (hj0 : 0 < jn) (hj1 : jn < ny) (hk0 : 0 < kn) (hk1 : kn < nz) :
+    avgX ny nz vol v i jn kn =
+      vol i (jn-1) (kn-1) * v i (jn-1) (kn-1) / 4 + vol i (jn-1) kn * v i (jn-1) kn / 4 +
+      (vol i jn (kn-1) * v i jn (kn-1) / 4 + vol i jn kn * v i jn kn / 4) := by
+  unfold avgX
+  have inner : ∀ j, sumTo nz (fun k => times (hits ny jn j * hits nz kn k)
+      (vol i j k * v i j k / 4)) =
+      times (hits ny jn j) (vol i j (kn-1) * v i j (kn-1) / 4 + vol i j kn * v i j kn / 4) := by
+    intro j
+    simp only [times_mul_nat]
+    rw [← times_sumTo, sumTo_hits nz kn _ hk0 hk1]
+  simp only [inner]
+  rw [sumTo_hits ny jn _ hj0 hj1]
+
+
 end Grad
